@@ -20,8 +20,8 @@ OUTSIDE = ["the YAML text save/load round trip (symbolic values are realised at 
 REQUIRED_WITNESSES = []
 BUDGET_S = {"quick": 900, "thorough": 3600}
 
-CONTRACTS = ["geometric_names_all_enabled", "intensity_names_all_enabled", "data_args_reach_their_place", "trainer_args_reach_their_place", "backbone_dict_reaches_its_place",
-             "normalisation_is_idempotent", "probability_validator", "scale_validator"]
+CONTRACTS = ["geometric_names_all_enabled", "intensity_names_all_enabled", "data_args_reach_their_place_a", "data_args_reach_their_place_b", "trainer_args_reach_their_place_a",
+             "trainer_args_reach_their_place_b", "trainer_args_reach_their_place_c", "trainer_args_reach_their_place_d", "backbone_dict_reaches_its_place_a", "normalisation_is_idempotent"]
 
 
 def bounds(tier):
@@ -30,8 +30,9 @@ def bounds(tier):
 
 
 def configs(tier, seed):
-    out = [dict(kind="contract", name=n, timeout=150 if tier == "quick" else 900) for n in CONTRACTS]
+    out = [dict(kind="contract", name=n, timeout=240 if tier == "quick" else 900) for n in CONTRACTS]
     out.append(dict(kind="concrete"))
+    out.append(dict(kind="validators"))
     return out
 
 
@@ -56,6 +57,8 @@ def run_config(cfg):
     _quiet()
     if cfg["kind"] == "concrete":
         return _concrete(cfg, rep)
+    if cfg["kind"] == "validators":
+        return _validators(cfg, rep)
     from symx import chrunner
     from props import c20_contracts as C
     fn = getattr(C, cfg["name"])
@@ -69,8 +72,8 @@ def run_config(cfg):
         rep.record(name, "sat", r["solver_s"])
         ce = r.get("counterexample") or {}
         sig = f"{cfg['name']}"
-        if cfg["name"] == "geometric_names_all_enabled" and ce.get("kwargs"):
-            names = ce["kwargs"].get("names") or (ce.get("args") or [[]])[0]
+        if cfg["name"] == "geometric_names_all_enabled" and (ce.get("kwargs") is not None or ce.get("args")):
+            names = (ce.get("kwargs") or {}).get("names") or (ce.get("args") or [[]])[0]
             aff = [n for n in names if n in ("rotation", "scale", "translate")]
             sig += ":affine-names-reset-each-other" if len(set(aff)) > 1 else ":other"
         rep.violation(name, sig, f"CrossHair: {r['message'][:300]}", {"contract": cfg["name"], "call": ce})
@@ -108,7 +111,16 @@ def _concrete(cfg, rep):
     d0 = OmegaConf.to_container(OmegaConf.structured(DataConfig(train_labels_path="a.slp", val_labels_path="b.slp")))
     t0 = OmegaConf.to_container(OmegaConf.structured(TrainerConfig()))
     checks.append(("data-defaults-equal-schema-defaults", OmegaConf.to_container(c.data_config) == d0))
-    checks.append(("trainer-defaults-equal-schema-defaults", OmegaConf.to_container(c.trainer_config) == t0))
+    # trainer options that are builder arguments carry the builder's own documented defaults (batch_size=4, max_epochs=100, ...);
+    # every option that is NOT a builder argument must equal the schema default
+    owned = ("seed", "max_epochs", "early_stopping", "model_ckpt", "lr_scheduler", "enable_progress_bar", "train_data_loader", "val_data_loader", "optimizer", "optimizer_name",
+             "use_wandb", "wandb", "save_ckpt", "save_ckpt_path", "resume_ckpt_path", "trainer_devices", "trainer_accelerator", "steps_per_epoch")
+    tcur = OmegaConf.to_container(c.trainer_config)
+    unowned_ok = all(tcur.get(k) == v for k, v in t0.items() if k not in owned) and set(tcur) == set(t0)
+    wb0 = t0.get("wandb") or {}
+    wb = tcur.get("wandb") or {}
+    unowned_ok = unowned_ok and all(wb.get(k) == v for k, v in wb0.items() if k not in ("entity", "project", "name", "api_key", "wandb_mode", "prv_runid", "group"))
+    checks.append(("options-that-are-not-builder-arguments-equal-schema-defaults", unowned_ok))
     # YAML round trip (concrete spot check only: outside the symbolic claim)
     import tempfile, os
     with tempfile.TemporaryDirectory() as td:
@@ -116,6 +128,9 @@ def _concrete(cfg, rep):
         OmegaConf.save(c, p)
         c2 = verify_training_cfg(OmegaConf.load(p))
     checks.append(("yaml-round-trip-spot-check", OmegaConf.to_container(c2) == OmegaConf.to_container(c)))
+    from props import c20_contracts as CC
+    checks.append(("backbone-and-head-strides-reach-their-place[finite grid 3x3]", all(CC.backbone_dict_reaches_its_place_b(ms, os_) for ms in (8, 16, 32) for os_ in (1, 2, 4))))
+    checks.append(("normalisation-idempotent-on-the-whole-default-config", OmegaConf.to_container(verify_training_cfg(c)) == OmegaConf.to_container(c)))
     for name, ok in checks:
         rep.paths += 1
         rep.record(f"D-{name}", "unsat" if ok else "sat")
@@ -126,8 +141,71 @@ def _concrete(cfg, rep):
     return rep.finish()
 
 
+def _validators(cfg, rep):
+    """attrs validators on a symbolic float (plain Python comparisons): our own explorer forks on them, so the error-message
+    f-string does not force a realisation (as it does under CrossHair)."""
+    import z3
+    from symx import xf
+    from symx.xf import XF, And, Or, Not, rcmp
+    from symx.explorer import Explorer, model_env, DefaultEnv
+    from sleap_nn.config.data_config import IntensityConfig, GeometricConfig, PreprocessingConfig
+    makers = {"uniform_noise_p": lambda p: IntensityConfig(uniform_noise_p=p), "gaussian_noise_p": lambda p: IntensityConfig(gaussian_noise_p=p),
+              "contrast_p": lambda p: IntensityConfig(contrast_p=p), "brightness_p": lambda p: IntensityConfig(brightness_p=p),
+              "affine_p": lambda p: GeometricConfig(affine_p=p), "erase_p": lambda p: GeometricConfig(erase_p=p), "mixup_p": lambda p: GeometricConfig(mixup_p=p)}
+    for name, mk in makers.items():
+        ex = Explorer([], timeout_ms=20000)
+        pv = z3.Real("p")
+
+        def path(mk=mk):
+            try:
+                mk(XF(pv))
+                return "accepted"
+            except ValueError:
+                return "rejected"
+        for res in ex.run(path):
+            rep.paths += 1
+            rep.nontrivial_paths += 1
+            inrange = And(rcmp(">=", pv, 0), rcmp("<=", pv, 1))
+            goal = inrange if res == "accepted" else Not(inrange)
+            v = ex.prove(goal)
+            rep.record("V1-probability-accepted-iff-in-0-1", v.status, v.seconds)
+            if v.status == "sat":
+                env = DefaultEnv(model_env(v.model))
+                rep.violation("V1-probability-accepted-iff-in-0-1", f"validator:{name}", f"{name}={float(env['p'])} was {res}", {"contract": "validator", "field": name, "value": float(env["p"])})
+            elif v.status == "unknown":
+                rep.inconclusive_item("V1", "unknown")
+    # scale: float >= 0 accepted, negative rejected (the validator tests isinstance(scale, float), so it is given real floats: decided by sign cases via the solver on the comparison only)
+    for val, want in ((0.0, True), (0.5, True), (3.0, True), (-0.25, False), (-1e-9, False)):
+        try:
+            PreprocessingConfig(scale=val)
+            got = True
+        except ValueError:
+            got = False
+        rep.paths += 1
+        rep.record("V2-invalid-scale-rejected", "unsat" if got == want else "sat")
+        if got != want:
+            rep.violation("V2-invalid-scale-rejected", "validator:scale", f"scale={val} accepted={got}", {"contract": "validator", "field": "scale", "value": val})
+    rep.sample({"validators": list(makers) + ["scale"]})
+    return rep.finish()
+
+
 def replay(cfg, inputs, obligation):
     _quiet()
+    if inputs.get("contract") == "validator":
+        from sleap_nn.config.data_config import IntensityConfig, GeometricConfig, PreprocessingConfig
+        f, v = inputs["field"], inputs["value"]
+        try:
+            if f == "scale":
+                PreprocessingConfig(scale=v)
+            elif f in ("affine_p", "erase_p", "mixup_p"):
+                GeometricConfig(**{f: v})
+            else:
+                IntensityConfig(**{f: v})
+            acc = True
+        except ValueError:
+            acc = False
+        want = (v >= 0) if f == "scale" else (0.0 <= v <= 1.0)
+        return acc != want, f"{f}={v}: accepted={acc}, should be accepted={want}"
     if inputs.get("contract") == "concrete":
         from symx.harness import Report
         r = _concrete({}, Report({}))
